@@ -19,11 +19,9 @@ class Collector:
     def violation(self, what, case, no_input=False): self.v.append((what, case, no_input))
     def known_finding(self, kid, what): self.k.append((kid, what))
     def is_known(self, kid): return kid in self._known
-    def flush(self, ctx):
+    def flush(self, ctx, pool):
         for kid, what in self.k: ctx.known_finding(kid, what)
-        kept, dropped = C.cap_violations(self.v)
-        for what, case, ni in kept: ctx.violation(what, case, no_input=ni)
-        if dropped: ctx.notes.append('%d further violations of the same (world, command) not written as replays' % dropped)
+        pool.extend(self.v)
 
 def areas_term(delta, w):
     codes = sorted({C.AREA_CODES.get(a, 8) for a in C.classify_delta(delta, w)})
@@ -272,10 +270,10 @@ def run(ctx):
         for i, f in enumerate(hfuts):
             kinds.append('history-%d' % i); results['history-%d' % i] = f.result()
         mres = {k: mfuts[k].result() for k in mkinds}
-    cases = []; refused = set(); exercised = set()
+    cases = []; refused = set(); exercised = set(); pool = []
     for k in kinds:
         r = results[k]
-        r['col'].flush(ctx)
+        r['col'].flush(ctx, pool)
         cases += r['cases']; refused |= r['refused']; exercised |= r['exercised']
         for key, nt, tags in r['counts']:
             ctx.count('cli', key=key, nontrivial=nt, tags=tags)
@@ -293,11 +291,16 @@ def run(ctx):
         ctx.violation('model and implementation disagree on guard / would_write / command id / write areas', c, no_input=True)
     mcases = []
     for k, r in mres.items():
-        r['col'].flush(ctx)
+        r['col'].flush(ctx, pool)
         mcases += r['cases']
         for key, nt, tags in r['counts']:
             ctx.count('mcp', key=key, nontrivial=nt, tags=tags)
     if mcases:
         ctx.sample(mcases[0][1])
+    kept, dropped = C.cap_violations(pool)
+    for what, case, ni in kept:
+        ctx.violation(what, case, no_input=ni)
+    if dropped:
+        ctx.notes.append('%d further violations of the same (command, kind) not written as replays' % dropped)
     for c in ctx.corr('mcp', HEADER, 'check_mcp', 'str * bool * facts * option str * bool * list N', mcases)[:6]:
         ctx.violation('model and implementation disagree on an MCP mutating tool (guard / would_write / areas)', c, no_input=True)
